@@ -93,6 +93,25 @@ func main() {
 			}
 		}
 	}
+	// backend answers WITHOUT a Content-Type header that break after the response has started: the handlers decide
+	// "has the response started?" by looking at the Content-Type header, so this is the shape that could get an
+	// Olla-made error text appended to the backend's bytes
+	if vlib.ReplayPath() == "" {
+		for _, engine := range []string{"sherpa", "olla"} {
+			for _, k := range []string{"body-close", "shortcl", "truncchunk", "hdr-close", "body-reset", "ok"} {
+				for _, two := range []bool{false, true} {
+					sc := &scen.Scenario{Engine: engine, Balancer: "priority", Profile: "auto", Method: "POST", Path: "/olla/proxy/v1/chat/completions", ReqBody: `{"noct":true}`}
+					e := mkEP(0, k, r, k == "truncchunk", "application/json")
+					e.Beh.Headers = [][2]string{{"X-Backend", names[0]}} // no Content-Type
+					sc.EPs = append(sc.EPs, e)
+					if two {
+						sc.EPs = append(sc.EPs, mkEP(1, "ok", r, false, "application/json"))
+					}
+					scs = append(scs, sc)
+				}
+			}
+		}
+	}
 	// pauses: shorter than the read timeout (must not be cut; both engines) and between 1x and 2x the
 	// read timeout followed by a resume (sherpa cuts the stream at the timeout; what was relayed stays a prefix)
 	if vlib.ReplayPath() == "" {
